@@ -39,7 +39,7 @@ var raceScope = []string{"api.checkAPIKey", "api.updateAPIKeys", "api.checkSessi
 	"api.deleteSession", "api.(*session)", "api.checkAuth", "api.authenticateRequest", "api.authReset", "api.VerifExpireSessions"}
 
 const rule = "a case is one request (method variant, handler with declared read/write permission, credential value and state, Origin, dev mode, path: main handler | api: bridge | loopback socket) sent to the real API main handler; " +
-	"the finite table (9x9 declared read/write x 15 method variants x every credential source/state incl. all 9x9 granted pairs for authenticator and session, 9 key permission pairs x 4 header forms) is enumerated completely; histories, concurrent scenarios and fuzzed headers are PRNG-determined. " +
+	"the finite table (9x9 declared read/write x 18 method variants x every credential source/state incl. all 9x9 granted pairs for authenticator and session, 9 key permission pairs x 4 header forms) is enumerated completely; histories, concurrent scenarios and fuzzed headers are PRNG-determined. " +
 	"distinct = distinct (world setup, credential value, target, method variant, origin) tuples / distinct fuzzed header strings; non-trivial = the independent model decided must / must-not / may and the observation (handler ran?, token seen, status, authenticator ran?) was compared with it"
 
 func main() {
@@ -89,6 +89,9 @@ func main() {
 		}
 		add(childSpec{Mode: "origin", LogLevel: "info"}, cfg.BinPlain, 10*time.Minute)
 		add(childSpec{Mode: "dev"}, cfg.BinPlain, 10*time.Minute)
+		for s := 0; s < 3; s++ {
+			add(childSpec{Mode: "acrm", Shard: s, NShards: 3, LogLevel: levels[(s+5)%len(levels)]}, cfg.BinPlain, 10*time.Minute)
+		}
 		add(childSpec{Mode: "bridge", LogLevel: "debug"}, cfg.BinPlain, 10*time.Minute)
 		for s := 0; s < cfg.N(8, 48); s++ {
 			add(childSpec{Mode: "history", Shard: s, N: cfg.N(10, 40), LogLevel: levels[(s+1)%len(levels)]}, cfg.BinPlain, 15*time.Minute)
@@ -174,10 +177,11 @@ func main() {
 func finish(cfg vlib.Cfg, rep *vlib.Report) {
 	rep.Set("exhaustive", true)
 	rep.Set("exhaustive_subspaces", []string{
-		"declared read x write in {NotFound,Dynamic,NotSupported,Anyone,User,Admin,Self,+100,-100}^2 (plain handlers) and {Dynamic..Self}^2 (Endpoints of all five function types) x 15 method variants x every credential value (none; authenticator ok for all 9x9 granted pairs, nil, error, denied; session valid and expired for all 9x9 pairs, reset, unknown; API keys for all 3x3 permission pairs, default, short-but-valid, future expiry, expired at configuration, expired after configuration, unknown, unknown shorter than 4 bytes (lengths 0..4), as Bearer and three Basic forms; 10 malformed Authorization forms)",
-		"Origin sub-table: 26 Origin values x dev on/off x 15 method variants x 9 declared x one credential per class; plus 5 Host header forms (no port, IP:port, local name, IPv6 literal, bare name) x 9 Origins derived from the Host (same, other/no/default port, foreign)",
+		"declared read x write in {NotFound,Dynamic,NotSupported,Anyone,User,Admin,Self,+100,-100}^2 (plain handlers) and {Dynamic..Self}^2 (Endpoints of all five function types) x 18 method variants x every credential value (none; authenticator ok for all 9x9 granted pairs, nil, error, denied; session valid and expired for all 9x9 pairs, reset, unknown; API keys for all 3x3 permission pairs, default, short-but-valid, future expiry, expired at configuration, expired after configuration, unknown, unknown shorter than 4 bytes (lengths 0..4), as Bearer and three Basic forms; 10 malformed Authorization forms)",
+		"Origin sub-table: 26 Origin values x dev on/off x 18 method variants x 9 declared x one credential per class; plus 5 Host header forms (no port, IP:port, local name, IPv6 literal, bare name) x 9 Origins derived from the Host (same, other/no/default port, foreign)",
 		"expiry sub-table: 6 orders of keys with different expiry (one passing its expiry while loaded) x before/after x Bearer/Basic x 11 handlers x 5 methods",
 		"development mode sub-table: every target x method variant x one credential per class",
+		"preflight-header sub-table: 7 non-OPTIONS methods x 8 Access-Control-Request-Method values (+ 2 with same Origin) x every plain handler (9x9) and Endpoint x one credential per class",
 		"bridge sub-table: every Endpoint x 7 methods x dev on/off",
 	})
 	want := rep.Counter("table_cells_planned")
@@ -188,6 +192,7 @@ func finish(cfg vlib.Cfg, rep *vlib.Report) {
 	rep.Floor(rep.Counter("sessions_created") >= 100, "sessions_created=%d", rep.Counter("sessions_created"))
 	rep.Floor(rep.Counter("fuzz_headers") >= int64(cfg.N(5000, 500000)), "fuzz_headers=%d", rep.Counter("fuzz_headers"))
 	rep.Floor(rep.Counter("expiry_requests_after") >= 500, "expiry_requests_after=%d", rep.Counter("expiry_requests_after"))
+	rep.Floor(rep.Counter("acrm_cells") >= 100000, "acrm_cells=%d", rep.Counter("acrm_cells"))
 	rep.Floor(rep.Counter("bridge_requests") >= 100, "bridge_requests=%d", rep.Counter("bridge_requests"))
 	rep.Floor(rep.Counter("wire_requests") >= 50, "wire_requests=%d", rep.Counter("wire_requests"))
 	rep.Floor(rep.Counter("concurrent_requests") >= 1000, "concurrent_requests=%d", rep.Counter("concurrent_requests"))
@@ -242,6 +247,8 @@ func childMain(dir string) {
 		rerr = runTable(w, j, cs)
 	case "origin":
 		rerr = runOrigin(w, j, cs)
+	case "acrm":
+		rerr = runACRM(w, j, cs)
 	case "dev":
 		rerr = runDev(w, j, cs)
 	case "bridge":
